@@ -193,8 +193,11 @@ def render_all(job, res):
                             items[bn] = cp.parse_py(text)
                         elif bn.endswith(".go"):
                             r = cp.go_check(text)
-                            items[bn] = r["items"]
                             res.setdefault("tool", {}).setdefault("go", {})[bn] = r["errors"]
+                            if r["errors"] and not r["items"]:
+                                perr[bn] = "; ".join(r["errors"])[:300]      # not even tokenizable / balanced
+                            else:
+                                items[bn] = r["items"]
                     except cp.ParseError as e:
                         perr[bn] = str(e)[:300]
                 res["out"][mode][name] = {"names": [os.path.basename(x) for x in paths], "items": items, "parse_errors": perr}
